@@ -146,6 +146,9 @@ type c16Plan struct {
 	HTTP   []httpSpec `json:"http"` // referenced by events of kind "http" through ev.Cols (index)
 	Addr   string     `json:"addr"`
 	UseKey bool       `json:"use_key"`
+	// KeyBlank: FZF_API_KEY consists of white space only. That is a key (fzf starts on a non-local address),
+	// and no request can present it: a header value never begins or ends with white space
+	KeyBlank bool `json:"key_blank,omitempty"`
 	Unsafe bool       `json:"unsafe"`
 	// UnsafeFirst: `--listen-unsafe ADDR0 --listen ADDR` – the later plain --listen wins, so the listener is not unsafe
 	UnsafeFirst bool `json:"unsafe_first"`
@@ -205,16 +208,18 @@ func genC16Plan(r *zsim.Rng) *c16Plan {
 	p.Multi = -1
 	p.Addr = pick(r, "localhost:0", "127.0.0.1:6266", "6266", "0.0.0.0:6266", "192.168.1.5:0", ":6266", "localhost:6266")
 	p.UseKey = r.Chance(3, 5)
+	p.KeyBlank = p.UseKey && r.Chance(1, 10)
 	p.Unsafe = r.Chance(1, 8)
 	p.UnsafeFirst = !p.Unsafe && r.Chance(1, 6)
-	p.Args = append(p.Args, "--bind", "alt-e:execute-silent(EX 1)")
+	// alt-j: jump mode - the next key is taken for a label; actions that come in through the endpoint are not keys
+	p.Args = append(p.Args, "--bind", "alt-e:execute-silent(EX 1)", "--bind", "alt-j:jump")
 	p.Events = append(p.Events, sysEvent{Kind: "settle"})
 	n := r.Range(1, 14)
 	for i := 0; i < n; i++ {
 		p.HTTP = append(p.HTTP, genHTTPSpec(r, i))
 		p.Events = append(p.Events, sysEvent{Kind: "http", Cols: i, DelayMs: []int{0, 0, 3, 50, 400}[r.Intn(5)]})
 		if r.Chance(1, 6) {
-			p.Events = append(p.Events, sysEvent{Kind: "keys", Keys: pick(r, "up", "alt-e", "down"), DelayMs: r.Intn(30)})
+			p.Events = append(p.Events, sysEvent{Kind: "keys", Keys: pick(r, "up", "alt-e", "down", "alt-j", "alt-j"), DelayMs: r.Intn(30)})
 		}
 	}
 	// a process-executing action sent over the network (must be filtered on a non-local listener unless --listen-unsafe)
@@ -272,7 +277,9 @@ func runC16(c *runCtx) {
 	nw := simnet.New()
 	defer func() { simnet.Cur = nil }()
 	oldKey, hadKey := os.LookupEnv("FZF_API_KEY")
-	if plan.UseKey {
+	if plan.UseKey && plan.KeyBlank {
+		os.Setenv("FZF_API_KEY", " \t  ")
+	} else if plan.UseKey {
 		os.Setenv("FZF_API_KEY", c16Key)
 	} else {
 		os.Unsetenv("FZF_API_KEY")
@@ -299,6 +306,9 @@ func runC16(c *runCtx) {
 		res := &httpResult{spec: spec}
 		results[ev.Cols] = res
 		req, class, auth := spec.build(plan.UseKey)
+		if plan.UseKey && plan.KeyBlank {
+			auth = false
+		}
 		res.class, res.auth = class, auth
 		conn := nw.Dial()
 		if conn == nil {
@@ -556,7 +566,12 @@ func runC16(c *runCtx) {
 	last := results[len(results)-1]
 	if last != nil && last.dialed && last.done {
 		status, _, _, wf := parseHTTPResponse(last.resp)
-		if !wf || (status != 200 && status != 503) {
+		if plan.UseKey && plan.KeyBlank {
+			// nobody can present a key of white space: the server is alive if it says so
+			if !wf || status != 401 {
+				c.violate("c16.wedged", "after all requests a GET was answered %q (expected 401: the configured key is white space)", clip(last.resp))
+			}
+		} else if !wf || (status != 200 && status != 503) {
 			c.violate("c16.wedged", "after all requests a valid authorised GET was answered %q", clip(last.resp))
 		} else {
 			c.count("probe.final_get_ok", 1)
